@@ -410,8 +410,10 @@ pub fn run(tier: Tier, seed: u64, ev: &mut Evidence) -> Vec<Violation> {
         .into();
     let mut distinct = HashSet::new();
     let mut contexts = HashSet::new();
-    let mut violations = gcsearch::batch(Attribution::C12, seed, n_sched, gcsearch::workload_mixed, 2, ev, &mut distinct, &mut contexts, 0);
-    // oracle 2
+    // oracle 2 runs first: its cases are stopped early at a low memory ceiling, so that a VM that
+    // grows without bound is reported by them as growth; under the audited workloads of oracle 1 the
+    // same defect only makes every collection and audit slower, up to the run watchdog
+    let mut violations = vec![];
     let mut cases = vec![];
     let mut rng = Rng::new(mix(seed, "C12-loops", 0));
     for n in &loop_ns {
@@ -481,6 +483,11 @@ pub fn run(tier: Tier, seed: u64, ev: &mut Evidence) -> Vec<Violation> {
                 detail,
             });
         }
+    }
+    if violations.is_empty() {
+        violations = gcsearch::batch(Attribution::C12, seed, n_sched, gcsearch::workload_mixed, 2, ev, &mut distinct, &mut contexts, 0);
+    } else {
+        ev.notes.push("oracle 1 (audited workloads) not run: the garbage loops of oracle 2 already report growth".into());
     }
     ev.distinct_nontrivial = distinct.len() as u64;
     ev.extra.insert("garbage_kinds".into(), json!(KINDS));
